@@ -133,6 +133,22 @@ func genSessionLocks(sb *strings.Builder) error {
 		}
 		lockFieldName = "lock"
 	}
+	// at most one hello in flight per destination: HelloPingHandler.Send checks for an active hello,
+	// sends the request and registers the pending state under sendLock for its whole body
+	{
+		f, err := parser.ParseFile(fset, repoRoot()+"/router/ping_hello.go", nil, 0)
+		if err != nil {
+			return err
+		}
+		lockFieldName = "sendLock"
+		for _, d := range f.Decls {
+			if fd, ok := d.(*ast.FuncDecl); ok && fd.Recv != nil && fd.Name.Name == "Send" {
+				locked["HelloPingHandler.Send"] = lockedWhole(fd)
+			}
+		}
+		lockFieldName = "lock"
+	}
+	fmt.Fprintf(sb, "Definition hello_send_locked : bool := %v.\n", locked["HelloPingHandler.Send"])
 	sb.WriteString("(* one replay handler per session, serialised: lock held for the whole body (go/ast) *)\n")
 	fmt.Fprintf(sb, "Definition state_getsession_locked : bool := %v.\n", locked["State.GetSession"])
 	fmt.Fprintf(sb, "Definition session_signing_locked : bool := %v.\nDefinition session_encryption_locked : bool := %v.\n", locked["Session.Signing"], locked["Session.Encryption"])
